@@ -168,6 +168,16 @@ def gen_random(ctx):
     ops = []
     sizes = [3, 4, 5, 15, 16, 17, 47, 48, 49, 63, 64, 65, 255, 256, 257, 1023, 1024, 1025, 4095, 4096, 4097]
     sizes += [rng.randrange(1, 70000) for _ in range(40 if th else 8)] + [65535, 65536, 65537]
+    # the empty byte string, also given as (NULL, 0) the way jose's own callers give it (an AES-GCM ciphertext of an empty
+    # plaintext comes out of jose_io_malloc as a NULL pointer of length 0)
+    for nul in (False, True):
+        for ol in (None, 0, 1, 4):
+            a = {"in": "", "null": nul}
+            if ol is not None:
+                a["ol"] = ol
+            ops.append(("b64.enc_buf", dict(a)))
+            ops.append(("b64.dec_buf", dict(a)))
+        ops.append(("b64.enc", {"in": "", "null": nul}))
     for n in sizes:
         b = rng.randbytes(n)
         e = ref_enc(b)
